@@ -179,6 +179,10 @@ class Prop(common.PropertyCheck):
                         excelgen.beads_row('F2', 'FC001', 'small_beads.fcs', channels=('FL1',)),
                         excelgen.beads_row('F3', 'FC001', 'beads1.fcs', channels=('FL1',), gate_fraction=-0.2),
                         excelgen.beads_row('F4', 'FC001', 'beads1.fcs', channels=('FL1', 'FL2'), mef={'FL1': '200, 700, 2500, 9000, 32000', 'FL2': '900, 5000, 26000'}),
+                        excelgen.beads_row('F5', 'FC001', 'beads1.fcs', channels=('FL1', 'FL2', 'FL3'),
+                                           mef={'FL1': '200, 700, 2500, 9000, 32000', 'FL2': '900, 5000, 26000, 70000', 'FL3': '100, 300, 900, 2700, 8100, 24300'}),
+                        excelgen.beads_row('F6', 'FC001', 'beads1.fcs', channels=('FL1', 'FL2', 'FL3'),
+                                           mef={'FL1': '200, 700, 2500, 9000, 32000', 'FL2': '900, 5000, 26000, 70000, 80000, 90000', 'FL3': '100, 300, 900, 2700'}),
                         excelgen.beads_row('G2', 'FC001', 'beads1.fcs', channels=('FL1',))]
                 bt = excelgen.table(rows)
                 np.random.seed(3)
@@ -241,8 +245,8 @@ class Prop(common.PropertyCheck):
         if case['k'] == 'empty':
             return None if impl['empty'] else 'an empty table did not yield an empty result'
         if case['k'] == 'beads':
-            want = ['ok', 'file_not_found', 'too_few_events', 'gate_fraction', 'unequal_mef', 'ok']
-            if impl['ids'] != ['G1', 'F1', 'F2', 'F3', 'F4', 'G2']:
+            want = ['ok', 'file_not_found', 'too_few_events', 'gate_fraction', 'unequal_mef', 'unequal_mef', 'unequal_mef', 'ok']
+            if impl['ids'] != ['G1', 'F1', 'F2', 'F3', 'F4', 'F5', 'F6', 'G2']:
                 return 'bead results are not keyed by row identifier in table order: %s' % impl['ids']
             for rid, k, w, note, nev, fn in zip(impl['ids'], impl['kinds'], want, impl['notes'], impl['nev'], impl['fx_none']):
                 if w == 'ok':
